@@ -489,8 +489,15 @@ func (v *Verifier) verifyFunc(ctr *Contract, fn *ssa.Function) (err error) {
 			}
 		}
 	}
-	if nret == 0 && len(outs) > 0 {
+	if nret == 0 {
+		// every path died (contradictory assumptions / contracts) or panicked: nothing was proved about
+		// a normal return - that is a vacuity failure, not a pass
 		v.note("no returning path in " + ctr.Key)
+		if ctr.hasProp(v.prop) {
+			o := &Obligation{Prop: v.prop, Func: v.curFn, Clause: "canary", Kind: "vacuity", Goal: False, What: "no return path is reachable: the assumptions made on the way (requires, callee contracts, after-call assumptions) contradict each other"}
+			o.Assumps = append([]*Term{}, fr.entry.pc...)
+			v.obls = append(v.obls, o)
+		}
 	}
 	// canary: at least one returning path must be reachable (ensures false must be refutable)
 	if nret > 0 {
